@@ -171,9 +171,75 @@ def work(part, n):
             pass
 
 
+def opt_work(part, n):
+    """The optimizer's memory bookkeeping on real plans: structural correspondence with Model.Dag.optimize (projected_mem of
+    every fused op is one of the compared fields) + a direct check of every real fuse_multiple / fuse call."""
+    import cubed
+    import importlib
+    from cubed.core.plan import arrays_to_plan
+
+    from harness.abstract_plan import dag_term, nid, op_order
+    from harness.framework import cnatlist
+    from harness.props import c02
+
+    opt_mod = importlib.import_module("cubed.core.optimization")
+    k = 0
+    while k < n:
+        prog = G.gen_pattern_program(part.rng) if part.rng.random() < 0.3 else G.gen_program(part.rng, nstmts=part.rng.randint(2, 7), allow_zero=False)
+        try:
+            env = G.build(prog, cubed.Spec(allowed_mem="500MB"))
+        except Exception:
+            continue
+        k += 1
+        outs = [env[o] for o in prog["outs"]]
+        plan = arrays_to_plan(*outs)
+        dag = plan.dag
+        st = c02.settings(part.rng, dag)
+        if st["kind"] == "simple":
+            st = dict(kind="default", ms=4, mn=10, af=[], nf=[])
+        calls = []
+        real_fm = opt_mod.fuse_multiple
+
+        def rec(primitive_op, *preds):
+            out = real_fm(primitive_op, *preds)
+            calls.append((int(primitive_op.projected_mem), [int(p.projected_mem) for p in preds if p is not None], int(out.projected_mem),
+                          int(primitive_op.allowed_mem)))
+            return out
+
+        opt_mod.fuse_multiple = rec
+        try:
+            odag = c02.real_optimize(dag, plan.array_names, st)
+        except Exception as e:
+            part.fail("optimizer-crash", f"{type(e).__name__}: {e}", {"prog": prog, "setting": st})
+            continue
+        finally:
+            opt_mod.fuse_multiple = real_fm
+        part.evaluations += 1
+        desc = {"prog": prog, "setting": st}
+        for opp, preds, fused, allowed in calls:
+            if fused < opp or any(fused < p for p in preds):
+                part.fail("fused-op-under-reports", f"fused op reports {fused} bytes but replaces ops projected at {[opp] + preds}", desc)
+            if not st["af"] and fused > allowed and opp <= allowed and all(p <= allowed for p in preds):
+                part.fail("default-fusion-exceeds-budget", f"fused op needs {fused} > allowed {allowed} although every replaced op fits", desc)
+        if calls:
+            part.nt(desc)
+            part.count("fusions-observed", len(calls))
+        ops0, virt0 = abstract(dag)
+        ops1, _ = abstract(odag)
+        pos = {i: j for j, i in enumerate(o["id"] for o in ops0)}
+        ops1s = sorted(ops1, key=lambda o: pos[o["id"]])
+        req = [nid(a) for a in plan.array_names]
+        cfg = f"(CFG {cnatlist(req)} {st['ms']} {'None' if st['mn'] is None else '(Some %d)' % st['mn']} {cnatlist(st['af'])} {cnatlist(st['nf'])})"
+        d0, d1 = dag_term(ops0, virt0), dag_term(ops1s, virt0)
+        part.case("optmem", {"expr": f"dag_eqb (optimize unit {cfg} {cnatlist(op_order(dag))} {d0}) {d1}", "desc": desc,
+                             "show": f"first_diff (dops unit (optimize unit {cfg} {cnatlist(op_order(dag))} {d0})) (dops unit {d1})"})
+
+
 def run(ctx):
     warnings.filterwarnings("ignore")
     k_arith(ctx)
+    oc = pmap(ctx, opt_work, [16] * (ctx.n(192, 4800) // 16), procs=12)
+    ctx.corr("optimizer_projected_mem", "Model.Util Model.Dag Model.DagObs", oc.get("optmem", []), chunk=80)
     N = ctx.n(96, 2400)
     per = 8
     cases = pmap(ctx, work, [per] * (N // per), procs=12)
